@@ -318,6 +318,8 @@ def run(ctx):
             cls = set(meta["cls"])
             if len(meta["rules"]) > 1:
                 cls.add("multi-rule")
+                if any(r_.count is not None for r_ in meta["rules"]):
+                    cls.add("count-shared")          # D161's shape, also where the general generator arrives at it
             if meta["zoned"]:
                 cls.add("zoned")
             if not meta["rules"]:
